@@ -308,7 +308,7 @@ def flatten_function(fj, by_name, helpers, types, depth=0, counter=None):
             retvar = prefix + "$ret"
             # continuation block: the rest of b
             cont = {k: v for k, v in b.items() if k in ("term", "cond", "term_loc", "succ", "noreturn", "sc_forced")}
-            cont["id"] = blk_off + len(g["blocks"]) + 1
+            cont["id"] = max(x["id"] for x in g["blocks"]) + 1  # (the callee's ids are sparse when it was expanded itself)
             cont["elems"] = b["elems"][ei + 1:]
             if has_val:
                 cont["elems"] = [{"k": "var", "id": e["id"], "t": e.get("t", gj0["ret"]), "loc": loc, "n": retvar, "sc": "local"}] + cont["elems"]
